@@ -197,7 +197,7 @@ static void at_exec(int idx) {
 }
 
 /* stack contents below the caller are arbitrary: fill them with a non-zero pattern before the call (command dirtystack <bytes>) */
-static size_t dirty_bytes = 0;
+static size_t dirty_bytes = 65536;     /* default: 64 KB below the caller are dirtied before every call (dirtystack <n> changes it, 0 = off) */
 static int pre_errno = -1;
 static long child_timeout = 30;           /* seconds; command childtimeout <n> */
 static void __attribute__((noinline)) dirty_stack(size_t nbytes) {
